@@ -179,14 +179,16 @@ def check_design(tier, ev):
     within the resource bounds (all histories of any length; closure counter capped)."""
     d = vlib.workdir(PID, "cfg")
     if tier == "quick":
-        plans = [((1, 2, 3), 2, 2, 1, (1,)), ((1, 2), 2, 2, 1, (1, 2))]
+        # (the late constant doubled the graph: the two-runtime plans with three handles / two closures are thorough now)
+        plans = [((1, 2, 3), 2, 1, 1, (1,)), ((1, 2), 2, 2, 1, (1,)), ((1, 2), 2, 1, 1, (1, 2))]
     else:
-        plans = [((1, 2, 3), 2, 2, 2, (1, 2)), ((1, 2), 3, 2, 1, (1,)), ((1, 2), 2, 3, 1, (1, 2))]
+        plans = [((1, 2, 3), 2, 2, 1, (1,)), ((1, 2), 2, 2, 1, (1, 2)),
+                 ((1, 2, 3), 2, 2, 2, (1, 2)), ((1, 2), 3, 2, 1, (1,)), ((1, 2), 2, 3, 1, (1, 2))]
     parts = []
     for (hs, mm, mg, mc, cs) in plans:
         cfg = os.path.join(d, "inv_%d_%d_%d_%d.cfg" % (len(hs), len(cs), mm, mg))
         mc_cfg(cfg, "MCSpecInv", 0, "empty", hs, mm, mg, mc, emit=False, props=True, closures=cs)
-        r = run_tlc("MCLifetime", cfg, workers=4, timeout=1500, heap="6g", coverage=False)
+        r = run_tlc("MCLifetime", cfg, workers=6, timeout=3000, heap="6g", coverage=False)
         require_tlc_ok(r, "MCLifetime invariants handles=%d mods=%d gens=%d" % (len(hs), mm, mg))
         ev.add_tlc(r)
         parts.append("complete graph handles=%d closures=%d packages<=%d runtimes<=%d counter<=%d: %d states, depth %d" %
